@@ -145,15 +145,17 @@ Definition feed (now : Z) (bs : list bbmon) (rs : list record) (refs : list (lis
 
 Definition purge_all (t : Z) (refs : list (list ment)) : list (list ment) := map (ref_purge t) refs.
 
-(* refresh obligations of the entries of one reference cache between two instants (exact scheduling) *)
-Definition refresh_ok (lo hi : Z) (sends : list (Z * message)) (ref : list ment) : bool :=
+(* refresh obligations of the entries of one reference cache between two instants (exact scheduling):
+   every browser attached to the cache hears every warning and each must ask, so a cache shared by n browsers
+   owes n questions for the record inside the window *)
+Definition refresh_ok (n : nat) (lo hi : Z) (sends : list (Z * message)) (ref : list ment) : bool :=
   forallb (fun e =>
     forallb (fun f =>
       let t0 := me_t0 e + me_ttl e * f in
       (* due strictly inside (lo, hi - 19): its latest possible instant has passed, and it was not yet due at lo *)
       if (lo <? t0) && (t0 + 19 <? hi) && (t0 + 19 <? me_expiry e) then
-        existsb (fun tm => (t0 <=? fst tm) && (fst tm <=? t0 + 19) &&
-                           is_query_for (bs_data (r_name (me_rec e))) (r_type (me_rec e)) (snd tm)) sends
+        Nat.leb n (length (filter (fun tm => (t0 <=? fst tm) && (fst tm <=? t0 + 19) &&
+                           is_query_for (bs_data (r_name (me_rec e))) (r_type (me_rec e)) (snd tm)) sends))
       else true) fractions) ref.
 
 Definition set_bs (q : bmon) (bs : list bbmon) : bmon := mkBmF (bm_refs q) bs (bm_now q) (bm_exact q) (bm_pending q).
@@ -233,7 +235,8 @@ Definition end_checks (focus : N) (q : bmon) (lo : Z) (outs : list out) (strict 
       if bm_exact q && in_focus focus 70 && existsb (fun b => bb_last_q b + 60000 <? t) bs then inr 70%N else
       if bm_exact q && in_focus focus 73 && existsb (fun b => existsb (fun kt => snd kt + 100 <? t) (bb_targets b)) bs then inr 73%N else
       if bm_exact q && in_focus focus 72 && negb strict &&
-         negb (forallb (fun b => refresh_ok lo t sends (ref_nth (bm_refs q) (bb_cache b))) (bm_bs q)) then inr 72%N else
+         negb (forallb (fun b => refresh_ok (length (filter (fun b' => Nat.eqb (bb_cache b') (bb_cache b)) (bm_bs q))) lo t sends
+                                           (ref_nth (bm_refs q) (bb_cache b))) (bm_bs q)) then inr 72%N else
       inl q1
   end.
 
